@@ -530,9 +530,9 @@ pub fn group(ctx: &Ctx, g: u64) -> Vec<Case> {
         }
         // servers with a puncture history (all 256 tags registered; see exec::punctured_server):
         // every tag, punctured or not, asked for by a client
-        // (under the Miri interpreter only the first two histories: generating a 256-tag key there
-        // takes minutes per server)
-        let n_hist = if ctx.stage == "miri" { 2 } else { crate::exec::PUNCTURE_HISTORIES.len() as u64 };
+        // (not under the Miri interpreter: generating one 256-tag key there takes tens of minutes;
+        // the native, ASan and valgrind stages run all eight histories)
+        let n_hist = if ctx.stage == "miri" { 0 } else { crate::exec::PUNCTURE_HISTORIES.len() as u64 };
         for hist in 0..n_hist {
           for md in 0..=255u8 {
             let ver = (md as u64 + hist) & 1;
